@@ -187,6 +187,18 @@ def triggers(p):
             neg_cyc |= {x for x in preds if x in reach[b] and a in reach[x]}
     if pure_pos & neg_cyc:
         t["mixed_cycle"] = True
+    # a cycle through negation that is "wide": three or more predicates on it, or one of its predicates has three or more
+    # clauses (KF42: below that size the engine's negative-cycle detection is checked exhaustively and without exception)
+    ncl = {}
+    for r in p["rules"]:
+        ncl[r["head"]["f"]] = ncl.get(r["head"]["f"], 0) + 1
+    for f in p["facts"]:
+        ncl[f["atom"]["f"]] = ncl.get(f["atom"]["f"], 0) + 1
+    for ad in p["ads"]:
+        for h in ad["heads"]:
+            ncl[h["atom"]["f"]] = ncl.get(h["atom"]["f"], 0) + 1
+    if len(neg_cyc) >= 3 or any(ncl.get(x, 0) >= 3 for x in neg_cyc):
+        t["negscc_wide"] = True
     if any(a in reach[b] for a, b, _ in edges):
         t["cyclic"] = True
     return t
